@@ -385,7 +385,7 @@ class NotIf(Sub):
         return None
 
 
-SENT_IFS = [['va', 'vb', 'vc', 'vd'], [False, 0, 'vc', 7]]
+SENT_IFS = [['va', 'vb', 'vc', 'vd'], [False, 0, 'vc', 7], [None, '', 0.0, None]]       # the last: blanks and other falsy values
 
 
 class Ifs(Sub):
@@ -402,7 +402,7 @@ class Ifs(Sub):
             for conds in itertools.product(POOL8, repeat=n):
                 for si in range(len(SENT_IFS)):
                     yield [list(conds), si, 'var']
-                    if None not in conds:
+                    if None not in conds and None not in SENT_IFS[si]:
                         yield [list(conds), si, 'lit']
 
     def check(self, env, case):
@@ -441,7 +441,7 @@ class Ifs(Sub):
 
 
 SW_POOL = [1, 2, 2.0, 'a', 'b', True]
-SENT_SW = [[['ra', 'rb', 'rc'], 'dd'], [[10, False, 'rc'], 0]]
+SENT_SW = [[['ra', 'rb', 'rc'], 'dd'], [[10, False, 'rc'], 0], [[None, '', 0.0], None]]     # the last: blank results, blank default
 
 
 class Switch(Sub):
@@ -462,6 +462,8 @@ class Switch(Sub):
                             if dflt == 'eq' and si:
                                 continue
                             for mode in ('var', 'lit'):
+                                if mode == 'lit' and si == 2:
+                                    continue        # blanks are handed in as variables
                                 yield [target, list(cs), dflt, si, mode]
 
     def check(self, env, case):
